@@ -269,6 +269,7 @@ Definition english_of_loop (neg : bool) (r : option (list text)) : option text :
   end.
 Lemma go_english_digits : forall T (colon neg : bool) d rest, (1 <= d < 10)%N ->
   go_english T colon ((if neg then ["-"%char] else @nil ascii) ++ dc d :: rest) =
+  if Nat.ltb (3 * List.length (t_triples T)) (List.length (dc d :: rest)) then None else
   english_of_loop neg (go_card_loop T (t_triples T) (dc d :: rest) (Z.of_nat (List.length (dc d :: rest)) - 1) []
                         (if colon then t_ordone T else t_one T) (if colon then t_ordteen T else t_teen T)).
 Proof.
@@ -281,6 +282,7 @@ Qed.
 (* for every integer but 0: the text is the words of the groups, most significant first, after "negative" *)
 Theorem go_english_words : forall T colon z, z <> 0%Z ->
   go_english T colon (dec_text z) =
+  if Nat.ltb (3 * List.length (t_triples T)) (List.length (digit_text 10 (Z.abs_N z))) then None else
   Some (join [sp] ((if (z <? 0)%Z then [tx "negative"] else []) ++
                    rev (GL T (t_triples T) (if colon then t_ordone T else t_one T) (if colon then t_ordteen T else t_teen T)
                            (triples_of (Z.abs_N z))))).
@@ -293,9 +295,42 @@ Proof.
   rewrite app_nil_r in L. fold (triples_of (Z.abs_N z)) in L. cbn [app] in L.
   destruct (z <? 0)%Z.
   - pose proof (go_english_digits T colon true d rest Hd) as G. cbn [app] in G.
-    rewrite E, G, <- E, L. unfold english_of_loop. rewrite rev_app_distr. reflexivity.
+    rewrite E, G, <- E, L. unfold english_of_loop. rewrite rev_app_distr. destruct (Nat.ltb _ _); reflexivity.
   - pose proof (go_english_digits T colon false d rest Hd) as G. cbn [app] in G.
-    rewrite E, G, <- E, L. unfold english_of_loop. reflexivity.
+    rewrite E, G, <- E, L. unfold english_of_loop. destruct (Nat.ltb _ _); reflexivity.
+Qed.
+
+(* the length of the decimal text: k digits exactly from 10^(k-1) to 10^k - 1 *)
+Lemma digit_text_length_ge : forall k n, (10 ^ N.of_nat k <= n)%N -> k + 1 <= List.length (digit_text 10 n).
+Proof.
+  induction k as [|k IH]; intros n H.
+  - pose proof (digit_text_nonempty 10 n) as Hne. destruct (digit_text 10 n); [contradiction | cbn; lia].
+  - rewrite Nat2N.inj_succ, N.pow_succ_r' in H.
+    assert (1 <= 10 ^ N.of_nat k)%N by (apply N.lt_pred_le; apply N.neq_0_lt_0; apply N.pow_nonzero; lia).
+    rewrite digit_text_step by lia. rewrite app_length. cbn [List.length].
+    assert (10 ^ N.of_nat k <= n / 10)%N by (apply N.div_le_lower_bound; lia).
+    specialize (IH (n / 10)%N H1). lia.
+Qed.
+Lemma digit_text_length_le : forall k n, (n < 10 ^ N.of_nat (S k))%N -> List.length (digit_text 10 n) <= S k.
+Proof.
+  induction k as [|k IH]; intros n H.
+  - rewrite digit_text_small by exact H. cbn. lia.
+  - destruct (N.ltb n 10) eqn:E; [apply N.ltb_lt in E | apply N.ltb_ge in E].
+    + rewrite digit_text_small by exact E. cbn. lia.
+    + rewrite digit_text_step by exact E. rewrite app_length. cbn [List.length].
+      rewrite Nat2N.inj_succ, N.pow_succ_r' in H.
+      assert (n / 10 < 10 ^ N.of_nat (S k))%N by (apply N.div_lt_upper_bound; lia).
+      specialize (IH (n / 10)%N H0). lia.
+Qed.
+Lemma ten66_pow : ten66 = (10 ^ N.of_nat 66)%N.
+Proof. vm_compute. reflexivity. Qed.
+(* "number too large": with 22 scale words, exactly from 10^66 on *)
+Lemma too_large : forall T n, List.length (t_triples T) = 22 ->
+  Nat.ltb (3 * List.length (t_triples T)) (List.length (digit_text 10 n)) = (ten66 <=? n)%N.
+Proof.
+  intros T n HL. rewrite HL. destruct (ten66 <=? n)%N eqn:E.
+  - apply N.leb_le in E. rewrite ten66_pow in E. pose proof (digit_text_length_ge 66 n E). apply Nat.ltb_lt. lia.
+  - apply N.leb_gt in E. rewrite ten66_pow in E. pose proof (digit_text_length_le 65 n E). apply Nat.ltb_ge. lia.
 Qed.
 
 (* ---- 4. against the definition: group by group --------------------------------------------------------- *)
@@ -364,12 +399,12 @@ Proof.
 Qed.
 
 (* ---- the static predicate (the domain of the theorem) ---------------------------------------------------- *)
-(* where the loop of dirR writes the defined text: the number is below 10^66, and for ordinals the last two digits are
-   01..19 or the last digit is not 0. (Two more clauses went with the repairs repo_fixes/C15-1 and C15-2: the group of
-   10^18, spelled quantillion, had to be zero, and no group could have a tens digit 2..9 with a units digit 0, which
-   appended the empty word one[0].) *)
+(* where the loop of dirR writes the defined text: for ordinals below 10^66 the last two digits are 01..19 or the last
+   digit is not 0 (from 10^66 on both signal an error). (Three more clauses went with the repairs repo_fixes/C15-1, C15-2
+   and C15-3: the group of 10^18, spelled quantillion, had to be zero; no group could have a tens digit 2..9 with a units
+   digit 0, which appended the empty word one[0]; the number had to be below 10^66, the higher digits were dropped.) *)
 Definition english_ok (ordinal : bool) (n : N) : bool :=
-  (n <? ten66)%N &&
+  (ten66 <=? n)%N ||
   (negb ordinal || (n =? 0)%N || ((1 <=? n mod 100)%N && (n mod 100 <? 20)%N) || negb (n mod 10 =? 0)%N).
 
 (* what is known of the groups of a number 0 < n < 10^66 *)
@@ -407,10 +442,12 @@ Theorem english_loop_T : forall T, List.length (t_triples T) = 22 -> chkA T = tr
 Proof.
   intros T HL HA HC ordinal z Hok.
   destruct (Z.eq_dec z 0) as [-> | Hz]. { apply english_zero. }
-  unfold english_ok in Hok. apply andb_true_iff in Hok. destruct Hok as [Hlt Ho]. apply N.ltb_lt in Hlt.
-  set (n := Z.abs_N z) in *.
+  unfold english_ok in Hok. set (n := Z.abs_N z) in *.
+  rewrite go_english_words by exact Hz. fold n. rewrite (too_large T n HL).
+  destruct (ten66 <=? n)%N eqn:Hlt; [apply N.leb_le in Hlt | apply N.leb_gt in Hlt].
+  { rewrite english_domain by (subst n; lia). reflexivity. }
+  cbn [orb] in Hok. rename Hok into Ho.
   destruct (triples_facts n ltac:(lia)) as [ts' [E [Hl Hb]]].
-  rewrite go_english_words by exact Hz. fold n.
   change (if ordinal then t_ordone T else t_one T) with (sel_one T ordinal).
   change (if ordinal then t_ordteen T else t_teen T) with (sel_teen T ordinal).
   rewrite GL_ggroup0 by (rewrite E, HL; cbn [List.length]; lia).
@@ -530,12 +567,9 @@ Proof.
   intros T HL HA HN HD ordinal z Hok Heq.
   destruct (Z.eq_dec z 0) as [-> | Hz]. { destruct ordinal; vm_compute in Hok; discriminate. }
   unfold english_ok in Hok. set (n := Z.abs_N z) in *.
-  rewrite go_english_words in Heq by exact Hz. fold n in Heq.
-  destruct (n <? ten66)%N eqn:Hlt; [apply N.ltb_lt in Hlt | apply N.ltb_ge in Hlt].
-  2:{ (* beyond the scale words the definition has no text, the loop has one *)
-      rewrite english_domain in Heq by (subst n; lia). discriminate. }
+  rewrite go_english_words in Heq by exact Hz. fold n in Heq. rewrite (too_large T n HL) in Heq.
+  destruct (ten66 <=? n)%N eqn:Hlt; [discriminate Hok|]. apply N.leb_gt in Hlt. cbn [orb] in Hok.
   destruct (triples_facts n ltac:(lia)) as [ts' [E [Hl Hb]]].
-  cbn [andb] in Hok.
   pose proof (cardinal_words_pos z Hz Hlt) as Hc. fold n in Hc.
   change (if ordinal then t_ordone T else t_one T) with (sel_one T ordinal) in Heq.
   change (if ordinal then t_ordteen T else t_teen T) with (sel_teen T ordinal) in Heq.
